@@ -578,7 +578,9 @@ def _scale_doublemad(
         np.nanmean(data_right, axis=axis, keepdims=True) / norm_aad,
         mad_right,
     )
-    return np.where(data < loc, mad_left, mad_right)
+    # Samples exactly at the median belong to neither side
+    mad_mid = 0.5 * (mad_left + mad_right)
+    return np.where(data < loc, mad_left, np.where(data > loc, mad_right, mad_mid))
 
 
 def _scale_diffcov(
